@@ -3,7 +3,7 @@ ID = "C15"
 N_QUICK, N_THOROUGH = 3000, 150000
 RULE = ("P-cases: random operation sequences over {append k, take, reset, clear, len, num_taken, num_not_taken, reserved} on the real "
         "ItemPool with header_lines N in {0,1,2,3,5,40}; batch sizes aimed at N-1,N,N+1; L-cases: the real SpinLock with 2..8 threads doing "
-        "a non-atomic read/yield/write increment; X-cases: one thread appending 2 000..6 000 items in chunks of 1..3 while another thread loops on num_taken()/take(): every item must be handed out exactly once, in order, at its own index. non-trivial = >= 2 appends and >= 2 takes (P) or >= 2 threads (L); distinct by sha1")
+        "a non-atomic read/yield/write increment; X-cases: one thread appending 2 000..6 000 items in chunks of 1..3 while another thread loops on num_taken()/take(): every item must be handed out exactly once, in order, at its own index; M-cases: the real Matcher::run (rayon workers) once per appended batch of 1..2000 items: every matched item carries its source position as item_idx, each position once. non-trivial = >= 2 appends and >= 2 takes (P) or >= 2 threads (L); distinct by sha1")
 ASSUMPTIONS = ["atomics are sequentially consistent (orderings extracted from source and table-checked; weak-memory reorderings below that are not modelled)",
                "pool operations are atomic because each holds the pool lock for its whole body (lock theorem) — the trait-level reasoning is by reading item.rs"]
 TRUSTED = ["tools/extractors/spinlock.py (regex over the two CAS loops of spinlock.rs and the atomics of impl ItemPool; fails closed)"]
@@ -16,7 +16,10 @@ def gen(rng, tier, n):
     for i in range(nl):
         # appends on one thread overlapping takes on another (the matcher's `num_taken(); take()`)
         yield "X|%d|%d" % (rng.choice([2000, 4000, 6000]), rng.choice([1, 1, 2, 3]))
-    for i in range(n - 2 * nl):
+    for i in range(nl):
+        # the real Matcher::run (rayon workers) once per appended batch: positions as identities, each once
+        yield "M|%s" % ",".join(str(rng.choice([1, 2, 5, 40, 300, 2000])) for _ in range(rng.randint(1, 4)))
+    for i in range(n - 3 * nl):
         N = rng.choice([0, 0, 1, 2, 3, 5, 40])
         ops = []
         for _ in range(rng.randint(1, rng.choice([4, 10, 30, 80]))):
@@ -40,6 +43,8 @@ def nontrivial(case):
         return int(case.split("|")[1]) >= 2
     if case.startswith("X|"):
         return True
+    if case.startswith("M|"):
+        return sum(int(x) for x in case.split("|")[1].split(",")) >= 5
     ops = case.rsplit("|", 1)[1].split()
     return len([o for o in ops if o.startswith("a:")]) >= 2 and ops.count("t") >= 2
 
@@ -49,6 +54,8 @@ def histogram_keys(case):
         return ["lock"]
     if case.startswith("X|"):
         return ["append-overlapping-take"]
+    if case.startswith("M|"):
+        return ["matcher-runs"]
     hd, ops = case.rsplit("|", 1)
     ops = ops.split()
     return ["N=" + hd.split("|")[1]] + sorted(set(o.split(":")[0] for o in ops))
